@@ -274,6 +274,11 @@ def check_case(ctx, case):
                     z = xpak.Xpak(fo)
                     if list(z.items()) != exp:
                         out.append(("fileobj", "items() through an open file object differ"))
+                    # random access on one shared handle (backwards, then forwards again)
+                    for k, v in list(reversed(exp)) + exp[1::2]:
+                        if z[k] != v:
+                            out.append(("fileobj-random-access", f"[{k!r}] on a shared file object -> {_short([(k, z[k])])}"))
+                            break
                 if list(ret.items()) != exp:
                     out.append(("returned-xpak", "Xpak returned by write_xpak reads different items"))
                 return out
@@ -321,7 +326,7 @@ def text_value():
         st.sampled_from(["", "x", "0", "sys-apps/foo", "amd64 ~x86"]),
     ]
     big = st.tuples(st.text(min_size=1, max_size=3), st.sampled_from([1500, 4100, 9000, 22000])).map(lambda t: {"rep": [t[0], t[1]]})
-    return st.one_of(*(small * 4 + [big]))
+    return st.one_of(*(small * 8 + [big]))
 
 
 def env_value():
@@ -334,11 +339,11 @@ def env_value():
     big = st.tuples(st.binary(min_size=1, max_size=5), st.sampled_from([2000, 8192, 33000])).map(
         lambda t: {"rep": [bytes_json(t[0]), t[1]]}
     )
-    return st.one_of(*(small * 2 + [big]))
+    return st.one_of(*(small * 5 + [big]))
 
 
 @st.composite
-def mapping_strategy(draw, max_size=8):
+def mapping_strategy(draw, max_size=6):
     keys = draw(st.lists(key_strategy(), max_size=max_size, unique=True))
     if "repo" in keys and "REPO" in keys:
         keys.remove("REPO")
@@ -374,8 +379,8 @@ def case_strategy():
 
 def plan(tier, seed):
     if tier == "quick":
-        return [{"task": "hyp", "examples": 250} for _ in range(16)]
-    return [{"task": "hyp", "examples": 9000} for _ in range(32)]
+        return [{"task": "hyp", "examples": 150} for _ in range(16)]
+    return [{"task": "hyp", "examples": 5000} for _ in range(32)]
 
 
 def run_task(ctx, task, **kw):
